@@ -27,6 +27,7 @@ class Ctx:
         self.trusted: list[str] = []
         self.assumptions: list[str] = []
         self.floors: list[dict] = []
+        self.unmet_floors: list[str] = []
         self.unresolved: list[str] = []
         self.files_used: set[str] = set()
         self.rule_texts: dict[str, str] = {}
@@ -74,9 +75,10 @@ class Ctx:
     def floor(self, rule: str, what: str, count: int, minimum: int):
         self.floors.append({"rule": rule, "what": what, "count": count, "minimum": minimum})
         if count < minimum:
-            raise AnalysisError(
-                f"{rule}: matched {count} {what}, below the floor of {minimum} confirmed by hand - the rule would pass vacuously"
-            )
+            # deferred: the remaining rules still run; finish() turns an unmet floor into ANALYSIS-ERROR (exit 2) unless a
+            # real violation was found as well (then the violation is reported, exit 1)
+            self.unmet_floors.append(
+                f"{rule}: matched {count} {what}, below the floor of {minimum} confirmed by hand - the rule would pass vacuously")
 
     def sample(self, obj):
         if len(self.samples) < 40:
@@ -206,6 +208,12 @@ def finish(ctx: Ctx, explanation: str, rule_summary: str, evidence_path: Optiona
         f"{len(printed_known)} known finding(s), {len(unlisted)} unlisted violation(s), {wall:.2f}s"
     )
     if unlisted:
+        for u in ctx.unmet_floors:
+            print(f"note: {u}")
         print(f"VIOLATION property={ctx.prop} replay={replay_path}")
         return 1
+    if ctx.unmet_floors:
+        for u in ctx.unmet_floors:
+            print(f"ANALYSIS-ERROR property={ctx.prop} {u}")
+        return 2
     return 0
